@@ -594,7 +594,7 @@ func init() {
 			for k := 0; k <= 13; k++ {
 				out = append(out, cs("VH_C20_Named", k))
 			}
-			n := q(tier, 80, 500)
+			n := q(tier, 200, 1500)
 			r := uint64(seed)*2654435761 + 20
 			for i := 0; i < n; i++ {
 				var digits []int
@@ -611,8 +611,8 @@ func init() {
 			return out
 		},
 		boundsText: map[string]string{
-			"quick":    "13 hand-built shapes (folded / symbol-bearing NOT wrappers, mutex-enabled envelopes at every slot, chains, typed nil children, read-only mutex-enabled nested nodes, zero instances in the first slot, unusable receivers; parenthetical bits symbolic; a second Reveal) + 3 hand-picked + 80 seeded trees of depth<=3, width<=3 (single-child chains favoured) over AND/OR/NOT/LIST with text/int leaves, Conditions holding text or Stacks, empty stacks, mutex-enabled nodes, case-folded and symbol-bearing nodes, nested stacks held natively / as alias / as pointer; the parenthetical bit of every Stack and Condition and the index-option and read-only bits of every Stack are solver variables",
-			"thorough": "3 hand-picked + 500 seeded trees of depth<=4",
+			"quick":    "13 hand-built shapes (folded / symbol-bearing NOT wrappers, mutex-enabled envelopes at every slot, chains, typed nil children, read-only mutex-enabled nested nodes, zero instances in the first slot, unusable receivers; parenthetical bits symbolic; a second Reveal) + 3 hand-picked + 200 seeded trees of depth<=3, width<=3 (single-child chains favoured) over AND/OR/NOT/LIST with text/int leaves, Conditions holding text or Stacks, empty stacks, mutex-enabled nodes, case-folded and symbol-bearing nodes, nested stacks held natively / as alias / as pointer; the parenthetical bit of every Condition and the parenthetical, index-option and read-only bits of the first five Stack nodes of a tree are solver variables (further nodes: drawn with the shape; a tree has at most ~9 nested Stack nodes)",
+			"thorough": "3 hand-picked + 1500 seeded trees of depth<=4",
 		},
 		outside: "trees outside the sampled shapes; aliases as nodes (C12)",
 		assumptions: []string{"deadlock = sync.Mutex.Lock on a mutex the single engine thread already holds (engine lock table)"},
